@@ -9,6 +9,7 @@ import (
 	"bytes"
 	"encoding/hex"
 	"fmt"
+	"github.com/Eyevinn/mp4ff/mp4"
 	"strings"
 
 	"verifharness/gen/cencgen"
@@ -148,6 +149,8 @@ func (x *ctx) viol(clause, sub, what string) {
 	x.c.Violation(key, what, det)
 }
 
+var recycledKey [32]byte
+
 func run(c *runner.Ctx, idx int) {
 	it := plan[idx]
 	cs, cfg, err := cencgen.Build(c.Rand, it, reals)
@@ -162,6 +165,19 @@ func run(c *runner.Ctx, idx int) {
 	c.Seen("iv_kind", cfg.IVKind)
 	for _, t := range cs.Traits {
 		c.Seen("trait", t)
+	}
+	// the key reaches the library in a buffer the harness recycles from case to case (a key store
+	// handing out one scratch slice): the library may not remember the slice itself
+	if len(cfg.Key) <= len(recycledKey) {
+		// first another key through the same buffer (so that a single replayed case has a predecessor too)
+		for i := range recycledKey {
+			recycledKey[i] = 0x11 + byte(i)
+		}
+		scratch := make([]byte, 48)
+		_ = c.Guard(func() { _ = mp4.CryptSampleCenc(scratch, recycledKey[:16:16], make([]byte, 16), nil) })
+		copy(recycledKey[:], cfg.Key)
+		cfg.Key = recycledKey[:len(cfg.Key):len(cfg.Key)]
+		c.Count("keys_passed_in_recycled_buffer", 1)
 	}
 	x := &ctx{c: c, cs: cs, cfg: cfg, pre: cfg.Scheme + "/" + fam(cs.Codec)}
 
